@@ -2,7 +2,7 @@
  * of the harness with arbitrary content, shaped by the `requires` of the contract; ps_q is ASSIGNED here (see lib/model_pubsub.c). */
 #define HQ QT qo; QT *q = &qo; ps_q = q
 #define HLK ULK lko; ULK *lk = &lko; lko._M_device = &qo._mx
-#ifdef CV_HAS_q_subscribe_lk_pos
+#if defined(CV_HAS_q_subscribe_lk_pos) && !defined(C16_FREELIST_BOUNDED)
 void h_subscribe_lk_pos(void) { HQ; SUBT *s; cv_i64 pos; q_subscribe_lk_pos(q, s, pos); __CPROVER_assert(0, "SENTINEL reachable"); }
 #endif
 #ifdef CV_HAS_q_subscribe_lk_recent
@@ -11,7 +11,7 @@ void h_subscribe_lk_recent(void) { HQ; SUBT *s; q_subscribe_lk_recent(q, s); __C
 #ifdef CV_HAS_q_subscribe_lk_copy
 void h_subscribe_lk_copy(void) { HQ; SUBT *s; cv_i64 h; q_subscribe_lk_copy(q, h, s); __CPROVER_assert(0, "SENTINEL reachable"); }
 #endif
-#ifdef CV_HAS_q_leave_lk
+#if defined(CV_HAS_q_leave_lk) && !defined(C16_FREELIST_BOUNDED)
 void h_leave_lk(void) { HQ; cv_i64 h; q_leave_lk(q, h); __CPROVER_assert(0, "SENTINEL reachable"); }
 #endif
 #ifdef CV_HAS_q_advance_lk
@@ -67,4 +67,46 @@ void h_q_push_range(void) { HQ; cv_i32 **b, **e; qw_push_range(q, b, e); __CPROV
 #endif
 #ifdef CV_HAS_qw_close
 void h_q_close(void) { HQ; qw_close(q); __CPROVER_assert(0, "SENTINEL reachable"); }
+#endif
+
+#ifdef C16_FREELIST_BOUNDED
+/* BOUNDED stand-in for the list-shaped part of the invariant (DESIGN 3.7): the free list threaded through the unused registration slots.
+ * The ghost-index contracts of subscribe_lk / leave_lk ASSUME, when they reference "another" slot: the free-list head is free, no free
+ * slot links to a used one, no self-loop.  Those are consequences of "the free list is a simple path through exactly the unused slots",
+ * which no fixed ghost index can carry.  Here: the REAL subscribe_lk(sub,pos) / leave_lk on an array-backed vector (every slot real),
+ * from the initial (empty) queue, every sequence of C16_FREELIST_BOUNDED operations with at most PS_ARRAY_REGS slots. */
+void h_freelist_bounded(void) {
+  QT qo; ps_q = &qo; rg_n = 0; qo._next_free = 0; qo._pos = 1; qo._closed = 0;
+  gh_lock_depth = 1; gh_lock_held = (void *)&qo._mx;                       /* the _lk functions run under the mutex */
+  cv_i8 live[PS_ARRAY_REGS]; for (int i = 0; i < PS_ARRAY_REGS; i++) live[i] = 0;
+  cv_i64 nlive = 0;
+  for (int k = 0; k < C16_FREELIST_BOUNDED; k++) {
+    if (nondet_bool()) {
+      if (nlive < PS_ARRAY_REGS) {
+        cv_i64 pos = nondet_size_t(); __CPROVER_assume(pos <= qo._pos - 1);
+        cv_i64 h = q_subscribe_lk_pos(&qo, (SUBT *)0, pos);
+        __CPROVER_assert(h < rg_n, "bounded: subscribe_lk returns a valid handle");
+        __CPROVER_assert(!live[h], "bounded: subscribe_lk never hands out a handle that a live subscriber holds");
+        live[h] = 1; nlive++;
+      }
+    } else {
+      cv_i64 h = nondet_size_t(); __CPROVER_assume(h < rg_n);
+      if (live[h]) { q_leave_lk(&qo, h); live[h] = 0; nlive--; }
+    }
+    /* shape: used <=> held by a live subscriber; the free list is a simple path through exactly the unused slots */
+    cv_i8 seen[PS_ARRAY_REGS]; for (int i = 0; i < PS_ARRAY_REGS; i++) seen[i] = 0;
+    cv_i64 cur = qo._next_free;
+    for (int j = 0; j < PS_ARRAY_REGS; j++) {
+      if (cur >= rg_n) break;
+      __CPROVER_assert(!ar_slots[cur]._used && !seen[cur], "bounded: the free list visits unused slots only, each once (no cycle, no sharing)");
+      seen[cur] = 1; cur = ar_slots[cur]._pos;
+    }
+    __CPROVER_assert(cur == rg_n, "bounded: the free list ends at size()");
+    for (int i = 0; i < PS_ARRAY_REGS; i++) if (i < rg_n) {
+      __CPROVER_assert((ar_slots[i]._used != 0) == (live[i] != 0), "bounded: a slot is in use iff a live subscriber holds its handle");
+      __CPROVER_assert(ar_slots[i]._used || seen[i], "bounded: every unused slot is on the free list (no slot leaks)");
+    }
+  }
+  __CPROVER_assert(0, "SENTINEL reachable");
+}
 #endif
